@@ -419,6 +419,25 @@ def encodeIntegerValuesEb (ch : EbChoices) (o : EncOpts) (attId kind nc numValue
   let bs ← encodeSchemeBlock ch o attId kind nc scheme md pos portable
   pure (scheme, bs)
 
+instance : Inhabited MeshData := ⟨⟨⟨#[], #[], #[], #[], false, 0⟩, #[], #[]⟩⟩
+
+/-- one call of `encodeIntegerValuesEb` during the encode: its arguments and its result -/
+structure ValueBlock where
+  /-- index of the controller (attribute encoder) -/
+  ctrl : Nat
+  attId : Nat
+  kind : Nat
+  nc : Nat
+  numValues : Nat
+  scheme : PScheme
+  md : MeshData
+  pointIds : Array Nat
+  parent : Option ParentAtt
+  portable : Array Int
+  outScheme : PScheme
+  bytes : Bytes
+deriving Inhabited
+
 /-- the result of the whole encode -/
 structure Encoded where
   bytes : Bytes
@@ -430,6 +449,8 @@ structure Encoded where
   outs : Array AttOut
   /-- point ids / data-to-corner map of every controller (by controller index) -/
   seqs : Array SeqOut
+  /-- the value blocks of the integer / quantization / normal encoders, in stream order -/
+  blocks : Array ValueBlock := #[]
   /-- `num_encoded_points()` / `num_encoded_faces()` as `ComputeNumberOfEncoded…` set them -/
   numEncodedPoints : Nat
   numEncodedFaces : Nat
@@ -534,6 +555,7 @@ def encodeEdgebreaker (ch : EbChoices) (g : Geometry) (md : Option GeometryMetad
   let baseView := t.view
   let mut outs : Array AttOut := Array.replicate atts.size { attId := 0, kind := 0, scheme := .none, valueBytes := [] }
   let mut seqs : Array SeqOut := Array.replicate cs.size default
+  let mut blocks : Array ValueBlock := #[]
   let mut parent : Option ParentAtt := none
   for e in order do
     let c := cs[e]!
@@ -596,6 +618,8 @@ def encodeEdgebreaker (ch : EbChoices) (g : Geometry) (md : Option GeometryMetad
         let nc := if s.kind == 3 then 2 else a.numComponents
         let (sch, vb) ← encodeIntegerValuesEb ch o.base s.attId s.kind nc a.numValues s.scheme mdata seq.pointIds parent portable
         bytes := bytes ++ vb
+        blocks := blocks.push { ctrl := e, attId := s.attId, kind := s.kind, nc, numValues := a.numValues, scheme := s.scheme,
+                                md := mdata, pointIds := seq.pointIds, parent, portable, outScheme := sch, bytes := vb }
         outs := outs.set! s.attId { attId := s.attId, kind := s.kind, scheme := sch, portable, valueBytes := vb,
                                     transformBytes := trBytes[k]! }
     -- EncodeDataNeededByPortableTransforms
@@ -605,7 +629,7 @@ def encodeEdgebreaker (ch : EbChoices) (g : Geometry) (md : Option GeometryMetad
   let usedTables : Array AttConn := (cs.toList.filterMap fun c =>
     if c.onAttTable && c.attDataId ≥ 0 then some (conn.atts[c.attDataId.toNat]!).conn else none).toArray
   let numEncodedPoints ← computeNumberOfEncodedPoints atts conn usedTables
-  pure { bytes := header ++ mdBytes ++ [coder] ++ conn.bytes ++ bytes, conn, controllers := cs, order, outs, seqs,
+  pure { bytes := header ++ mdBytes ++ [coder] ++ conn.bytes ++ bytes, conn, controllers := cs, order, outs, seqs, blocks,
          numEncodedPoints, numEncodedFaces }
 
 /-- **CTIso**: the decoder's corner table (`dc2v`, `dopp`, `numFaces` faces) is isomorphic to the
